@@ -1539,5 +1539,123 @@ theorem Diagram_hazard_rows {p : Proc N} {prog : List (Instr N)} (hwf : wfProc p
       s'.util = tbl.getD t ([] : List (N × List HI)) ∧ s'.table = (tbl.take (t + 1)).reverse :=
   simulate_rows (HazardInv p prog) (HazardInv.init p prog) (fun _ _ h hs => h.step hwf hprog hs) tbl stalled hd t ht
 
+/-! ## 8. Reading a diagram: `positions`, `accs`, `doneBefore` -/
+
+section reading
+omit [LT N] [DecidableRel (α := N) (· < ·)]
+
+theorem mem_positions_iff (c : Ctx N) (i : Nat) (x : Nat × UnitM N × Stall) :
+    x ∈ c.positions i ↔ x.1 < c.T ∧ x.2.1 ∈ c.p.allUnits ∧ (⟨i, x.2.2⟩ : HI) ∈ (c.row x.1).get x.2.1.name := by
+  obtain ⟨t, u, l⟩ := x
+  simp only [Ctx.positions, Ctx.units, Ctx.occ, List.mem_flatMap, List.mem_range, List.mem_map, List.mem_filter,
+    beq_iff_eq, Prod.mk.injEq]
+  constructor
+  · rintro ⟨t', ht', u', hu', h, ⟨hh, hi⟩, rfl, rfl, rfl⟩
+    refine ⟨ht', hu', ?_⟩
+    cases h; simp only at hi; subst hi; exact hh
+  · rintro ⟨ht, hu, hh⟩
+    exact ⟨t, ht, u, hu, ⟨i, l⟩, ⟨hh, rfl⟩, rfl, rfl, rfl⟩
+
+/-- `t ∈ accs wr i`: row `t` shows instruction `i` unstalled in a unit holding lock `wr` -/
+theorem mem_accs_iff (c : Ctx N) (wr : Bool) (i t : Nat) :
+    t ∈ c.accs wr i ↔ t < c.T ∧ accIn c.p (c.row t) wr i = true := by
+  unfold Ctx.accs
+  rw [List.mem_map, accIn_iff]
+  constructor
+  · rintro ⟨x, hx, rfl⟩
+    obtain ⟨hpos, hf⟩ := List.mem_filter.1 hx
+    obtain ⟨h1, h2, h3⟩ := (mem_positions_iff c i x).1 hpos
+    simp only [Bool.and_eq_true, beq_iff_eq] at hf
+    refine ⟨h1, x.2.1, h2, ?_, ?_⟩
+    · cases wr <;> simpa using hf.2
+    · rw [← hf.1]; exact h3
+  · rintro ⟨ht, u, hu, hl, hm⟩
+    refine ⟨(t, u, .U), List.mem_filter.2 ⟨(mem_positions_iff c i _).2 ⟨ht, hu, hm⟩, ?_⟩, rfl⟩
+    cases wr <;> simpa using hl
+
+/-- `doneBefore wr i t`: access `(wr, i)` is shown in one of the first `t` rows -/
+theorem doneBefore_eq (p : Proc N) (prog : List (Instr N)) (tbl : List (Util N)) (st : Bool) (wr : Bool) (i t : Nat) :
+    (ctx p prog tbl st).doneBefore wr i t = grantedB p (tbl.take t) wr i := by
+  rw [Bool.eq_iff_iff]
+  unfold Ctx.doneBefore grantedB
+  simp only [List.any_eq_true, decide_eq_true_eq, mem_accs_iff]
+  constructor
+  · rintro ⟨t', ⟨hT, hacc⟩, hlt⟩
+    refine ⟨tbl.getD t' [], ?_, hacc⟩
+    rw [List.mem_take_iff_getElem]
+    have hT' : t' < tbl.length := hT
+    refine ⟨t', by omega, ?_⟩
+    simp [List.getD_eq_getElem?_getD, hT']
+  · rintro ⟨row, hrow, hacc⟩
+    obtain ⟨t', ht', e⟩ := List.mem_take_iff_getElem.1 hrow
+    have h1 : t' < tbl.length := by omega
+    refine ⟨t', ⟨h1, ?_⟩, by omega⟩
+    have : (ctx p prog tbl st).row t' = row := by
+      simp [Ctx.row, ctx, List.getD_eq_getElem?_getD, h1, e]
+    rw [this]; exact hacc
+
+theorem grantedB_reverse (p : Proc N) (tbl : List (Util N)) (wr : Bool) (i : Nat) :
+    grantedB p tbl.reverse wr i = grantedB p tbl wr i := by
+  unfold grantedB; exact List.any_reverse
+
+/-- **Core of C01, one cycle.** If request `x` on register `r` is granted in this cycle, every conflicting request `y`
+of an older instruction on `r` was granted in an earlier recorded cycle. -/
+theorem older_granted {p : Proc N} (hn : (p.allUnits.map (·.name)).Nodup) {prog : List (Instr N)} {s : SimState N}
+    (hinv : PlanInv p prog s) {F : Util N} (hk : (AMap.keys F).Nodup) {r : N} {x y : Req}
+    (hx : x ∈ rowReqs p.allUnits prog s.queues s.util F r) (hy : y ∈ reqsOf prog r) (hlt : y.2 < x.2)
+    (hconf : y.1 = true ∨ x.1 = true) : grantedB p s.table y.1 y.2 = true := by
+  have hserv := rowReqs_servable hn hk hx
+  rw [canAccess_refines (hinv.wf r)] at hserv
+  have hmem := mem_of_canServe hserv
+  have hall := (canServe_sorted_iff (hinv.sorted r) hmem).1 hserv
+  cases hg : grantedB p s.table y.1 y.2 with
+  | true => rfl
+  | false =>
+    exfalso
+    have hypend : y ∈ abs (s.queues.get r) := hinv.mem_abs.2 ⟨hy, hg⟩
+    obtain ⟨ky, oy⟩ := y
+    obtain ⟨kx, ox⟩ := x
+    simp only at hlt hconf
+    have hk' : key (ky, oy) < key (kx, ox) := by
+      cases ky <;> cases kx <;> simp [key] <;> omega
+    have := hall _ hypend hk'
+    cases kx with
+    | true =>
+      simp only [if_true, Prod.mk.injEq] at this
+      omega
+    | false =>
+      simp only [Bool.false_eq_true, if_false] at this
+      rcases hconf with h | h
+      · rw [this] at h; cases h
+      · cases h
+
+end reading
+
+/-- **C01, request form.** In every diagram: if `(ki, i)` and `(kj, j)` are requests on the same register, `i` older
+than `j`, at least one of them a write, then every cycle in which `j` performs its access is preceded by a strictly
+earlier cycle in which `i` performs its own. -/
+theorem ordered_of_conflict {p : Proc N} {prog : List (Instr N)} (hwf : wfProc p = true) (hprog : ProgOK prog)
+    {tbl : List (Util N)} {stalled : Bool} (hd : Diagram p prog tbl stalled) {r : N} {i j : Nat} {ki kj : Bool}
+    (hij : i < j) (hi : (ki, i) ∈ reqsOf prog r) (hj : (kj, j) ∈ reqsOf prog r) (hconf : ki = true ∨ kj = true) :
+    orderedAcc (ctx p prog tbl stalled) ki kj i j = true := by
+  unfold orderedAcc
+  rw [List.all_eq_true]
+  intro tj htj
+  show (ctx p prog tbl stalled).doneBefore ki i tj = true
+  rw [doneBefore_eq]
+  obtain ⟨hT, hacc⟩ := (mem_accs_iff _ _ _ _).1 htj
+  have hT' : tj < tbl.length := hT
+  obtain ⟨s, s', hinv, htab, hrun, hutil, _⟩ := Diagram_hazard_rows hwf hprog hd hT'
+  obtain ⟨lab, qs, hlab, _, _, e⟩ := runCycle_eq_some hrun
+  subst e
+  have hn := wfProc_nodup_names hwf
+  have hk := (hinv.core.row.after_fillCycle hn prog).keys_nodup
+  have hrow : (ctx p prog tbl stalled).row tj = lab.1 := hutil.symm
+  rw [hrow] at hacc
+  have hx := (mem_rowReqs_iff_accIn hn hk hlab hj).2 hacc
+  have := older_granted hn hinv.plan hk hx hi hij hconf
+  rw [htab, grantedB_reverse] at this
+  exact this
+
 end Hazards
 end ProcSim
